@@ -418,11 +418,20 @@ func termCorpus(t *testing.T, out *sink, cases *int) {
 		"F:c#parents@F:d#", "F:d#parents@F:e#", "F:e#parents@F:c#", "F:e#parents@F:t#", "F:t#owner@bob",
 		"F:s#parents@F:s#",
 		"F:x#parents@F:y#", "F:x#parents@F:z#", "F:y#parents@F:x#", "F:y#parents@F:z#", "F:z#parents@F:x#", "F:z#parents@F:y#"}
-	checks := []string{"F:a#view@nobody", "F:b#view@alice", "F:c#view@bob", "F:c#view@nobody", "F:s#view@nobody", "F:x#view@nobody", "F:x#strict@nobody", "F:a#strict@alice"}
+	// a wide hierarchy node: more parents than one storage page (100), the grant behind a parent on the second page
+	for i := 0; i < 150; i++ {
+		tuples = append(tuples, fmt.Sprintf("F:w#parents@F:q%d#", i))
+	}
+	tuples = append(tuples, "F:q120#owner@carol")
+	checks := []string{"F:a#view@nobody", "F:b#view@alice", "F:c#view@bob", "F:c#view@nobody", "F:s#view@nobody", "F:x#view@nobody", "F:x#strict@nobody", "F:a#strict@alice",
+		"F:w#view@nobody", "F:w#view@carol"}
 	for _, opl := range []bool{false, true} {
 		ee := newEngineEnv(t, nss, false, opl, 5, 100)
-		for _, o := range []string{"a", "b", "c", "d", "e", "t", "s", "x", "y", "z", "alice", "bob", "nobody"} {
+		for _, o := range []string{"a", "b", "c", "d", "e", "t", "s", "x", "y", "z", "w", "alice", "bob", "carol", "nobody"} {
 			ee.pool.add(o)
+		}
+		for i := 0; i < 150; i++ {
+			ee.pool.add(fmt.Sprintf("q%d", i))
 		}
 		ee.header(out)
 		var ts []*ketoapi.RelationTuple
